@@ -24,15 +24,17 @@ import (
 
 // Mode selects the property-specific workload mix and oracles.
 type Mode struct {
-	Prop     string
-	Faults   bool // backend faults (status / hang / malformed / lost reply)
-	BadReqs  bool // deliberately bad requests
-	Reads    bool // read endpoints in the mix
-	Submits  bool // submissions in the mix
-	Boundary bool // C07: boundary-biased get-entries over the whole int64 range
-	External bool // C14: second instance with external chain storage
-	Oracle   func(w *World, op *Op)
-	Final    func(w *World)
+	Prop        string
+	Faults      bool  // backend faults (status / hang / malformed / lost reply)
+	BadReqs     bool  // deliberately bad requests
+	Reads       bool  // read endpoints in the mix
+	Submits     bool  // submissions in the mix
+	Boundary    bool  // C07: boundary-biased get-entries over the whole int64 range
+	External    bool  // C14: second instance with external chain storage
+	LostReply   bool  // C01: the reply to an applied QueueLeaf may be lost (crash between backend and response)
+	ReadWeights []int // sth, consistency, proof-by-hash, entries, entry-and-proof, roots
+	Oracle      func(w *World, op *Op)
+	Final       func(w *World)
 }
 
 // Profile is drawn per run (swarm style).
@@ -111,7 +113,10 @@ func (w *World) Init(s *kernel.Sim) {
 	t := s.T
 	p := &w.prof
 	p.Replicas = t.Range(1, 3)
-	skewLadder := []time.Duration{0, 3 * time.Millisecond, -40 * time.Millisecond, 2 * time.Second, -time.Minute, 26 * time.Hour}
+	// only forward skew: the handlers derive their RPC deadline from the same TimeSource, and a
+	// context deadline is compared with the process clock, so a TimeSource behind the process clock
+	// would expire every request at once - an artefact of skewing one of two clocks that are one in production
+	skewLadder := []time.Duration{0, 3 * time.Millisecond, 40 * time.Millisecond, 2 * time.Second}
 	for i := 0; i < p.Replicas; i++ {
 		sk := time.Duration(0)
 		if i > 0 {
@@ -136,8 +141,13 @@ func (w *World) Init(s *kernel.Sim) {
 				p.Fault[k] = t.Range(1, 3)
 			}
 		}
-	} else if w.mode.Reads && t.Chance(1, 2) {
-		p.Fault["rpc.short"] = 2 // a short read is legal backend behaviour, not a fault of the log
+	} else {
+		if w.mode.Reads && t.Chance(1, 2) {
+			p.Fault["rpc.short"] = 2 // a short read is legal backend behaviour, not a fault of the log
+		}
+		if w.mode.LostReply && t.Chance(1, 2) {
+			p.Fault["rpc.lostreply"] = 2
+		}
 	}
 
 	if w.mode.External {
@@ -255,7 +265,11 @@ func (w *World) genSubmit() *Op {
 func (w *World) genRead() *Op {
 	t := w.s.T
 	n := w.treeSize()
-	switch t.Pick([]int{3, 3, 3, 4, 3, 1}) {
+	rw := []int{3, 3, 3, 4, 3, 1}
+	if w.mode.ReadWeights != nil {
+		rw = w.mode.ReadWeights
+	}
+	switch t.Pick(rw) {
 	case 0:
 		op := w.newOp("get-sth")
 		op.Path = "/ct/v1/get-sth"
